@@ -79,6 +79,13 @@ def _gen(seed):
         # p_bad: mismatch lands on a uniformly random axis (first, last, suffix, inside the variadic)
         target = {"op": "arr", "ann": a, "val": g.arr_val(a, pref, p_bad=r.choice((0.0, 0.0, 0.2, 0.4)), vt=vt)}
         touched = g.anns[a]["toks"]
+        if r.random() < 0.4:
+            # structure names bound earlier in the same context: an ARRAY check that fails or raises must leave them alone too
+            for nm in ("T", "S"):
+                if r.random() < 0.6:
+                    ta = g.add_ann({"k": "tree", "leaf": "int", "struct": nm})
+                    prefix.append({"op": "tree", "ann": ta, "val": g.fill_tree(g.tree_shape(r.randrange(0, 3), 4, node_ok=False),
+                                                                              lambda i: {"t": "int", "v": i})})
     else:
         gq = Gen(r, names=("a", "b", "n"), sizes=(1, 2, 3), var_names=("v",), allow_sym=True, allow_q=True,
                  max_tokens=3, sym_exprs=["a+1", "{k}", "zz+1"])
